@@ -2,6 +2,7 @@ import MpdProofs.Lemmas.LoopInv
 import Mpd.Client
 import MpdProofs.Lemmas.Progress
 import MpdProofs.C03
+import MpdProofs.Lemmas.InvalidFinal
 /-!
 # C08 — when the connection ends, every request resolves and the failure is reported
 
@@ -194,5 +195,18 @@ theorem C08_clean_eof_no_error (s : St) (rf : Bool) (hpc : s.pc = .idling .initi
     rw [hp]
     simp [Conn.eofItem, Builder.inProgress]
   · rw [closings_exitLoop, h2]
+
+/-- **invalid data is final**: when a poll of the receive future has reported an invalid message, any
+later state of the task that still has that receive buffer and builder state (nothing but a poll of a
+receive future changes them) — whatever has arrived on the transport since, whether it ended or failed —
+polls to an invalid message again, consuming nothing. After data outside the grammar the connection
+cannot come back to life, and no later request is handed what was left of the rejected reply. -/
+theorem C08_invalid_data_is_final (s : St) (σ : Builder.BState) (s1 : St)
+    (h : pollRecv s σ = (s1, .ready .invalid))
+    (s2 : St) (hb : s2.buf = s1.buf) (hs : s2.bstash = s1.bstash) :
+    (pollRecv s2 s2.bstash).2 = .ready .invalid ∧ (pollRecv s2 s2.bstash).1.buf = s2.buf ∧
+      (pollRecv s2 s2.bstash).1.bstash = s2.bstash := by
+  rw [pollRecv_invalid_final s σ s1 h s2 hb hs]
+  exact ⟨rfl, rfl, rfl⟩
 
 end Mpd.C08
